@@ -503,6 +503,11 @@ class SymExec:
             return
         ks = [c for c in kids(v) if c.get("kind") not in ("FullComment",)]
         if not ks:
+            # `T x;` followed by `x = ...;` : the local exists (a later assignment binds it); reading it before is opaque,
+            # never a namespace-scope constant
+            ty = ctype(v)
+            if ty in FLT_TYS + INT_TYS + ("bool",):
+                self.env[name] = ("opaque", "%s (declared without a value)" % name, ty)
             return
         lam = [m for m in walk(ks[-1]) if m.get("kind") == "LambdaExpr"]
         if lam:
